@@ -1,5 +1,5 @@
 """C01 — commit then checkout reproduces the tracked tree byte-for-byte."""
-import random, json
+import random, json, os
 import vlib, s1, gen, s1eval
 
 PROP = "C01"
@@ -197,6 +197,115 @@ def nontrivial(run):
     return files >= 3 and nested
 
 
+SEG_GOOD = [b"a", b"b", b"data", b"raw", b"..hidden", b"a..b", b"x y", "\u00e9t\u00e9".encode(), b".a", b"...", b"s.yaml", b"\xff\xfe", b"-v", b"a.tmp"]
+
+
+def path_stream(R, drv, rng, tier):
+    """S7-path: the model's path algebra (Path.clean/dir/join/rel) and its `pathAbsThenRel` (Props/C01path.lean: theorems for every root,
+    working directory and argument string) against the real filepath functions and the real pathAbsThenRel, called in-process from a real
+    working directory (chdir + $PWD spelt as generated).  For arguments built to denote a known path inside the root the answer is also
+    compared with that path (the statement of `rebase_relative`: the same stage path from whichever directory, however it is spelt)."""
+    import subprocess, tempfile
+    h = vlib.build_harness("inproc")
+    T = os.fsencode(tempfile.mkdtemp(prefix="pth.", dir=vlib.scratch()))
+    n = 4000 if tier == "quick" else 60000
+    lines, meta = [], []
+
+    def comps(k):
+        return [rng.choice(SEG_GOOD) for _ in range(k)]
+
+    def noisy(cs, absolute):
+        out = b"/" if absolute else b""
+        for i, c in enumerate(cs):
+            r = rng.random()
+            if r < 0.15:
+                out += b"./"
+            elif r < 0.25 and out:
+                out += b"/"
+            elif r < 0.32 and i > 0:
+                out += rng.choice(SEG_GOOD) + b"/../"
+            out += c + (b"/" if i + 1 < len(cs) else b"")
+        if rng.random() < 0.2 and out:
+            out += rng.choice([b"/", b"/.", b"//"])
+        return out
+
+    def raw_string():
+        k = rng.randrange(0, 6)
+        parts = [rng.choice(SEG_GOOD + [b".", b"..", b"", b"..", b"."]) for _ in range(k)]
+        return (b"/" if rng.random() < 0.4 else b"") + rng.choice([b"/", b"/", b"//"]).join(parts)
+    for i in range(n):
+        fam = ["inside", "updown", "abs-inside", "outside", "raw", "algebra"][i % 6]
+        r = [T[1:]] + comps(rng.randrange(0, 3))
+        d = comps(rng.randrange(0, 4))
+        root = b"/" + b"/".join(r)
+        cwd = b"/" + b"/".join(r + d)
+        if rng.random() < 0.2:
+            cwd = noisy(r + d, True)
+        if rng.random() < 0.1:
+            root = noisy(r, True)
+        expect = None
+        if fam == "inside":
+            # shortest spelling through the common prefix of d and p, plus noise
+            q = rng.randrange(0, len(d) + 1)
+            p2 = comps(rng.randrange(0, 3))
+            p = d[:q] + p2
+            arg = noisy([b".."] * (len(d) - q) + p2, False)
+            expect = p
+        elif fam == "updown":
+            p = comps(rng.randrange(0, 4))
+            arg = b"/".join([b".."] * len(d) + p)
+            expect = p
+        elif fam == "abs-inside":
+            p = comps(rng.randrange(0, 4))
+            arg = noisy(r + p, True)
+            expect = p
+        elif fam == "outside":
+            up = len(d) + rng.randrange(1, len(r) + 2)
+            arg = b"/".join([b".."] * up + comps(rng.randrange(0, 3))) if rng.random() < 0.7 else b"/" + b"/".join(comps(rng.randrange(0, 3)))
+        elif fam == "raw":
+            arg = raw_string()
+        if fam == "algebra":
+            a, b = raw_string(), raw_string()
+            op = rng.choice(["clean", "dir", "join", "rel", "rel"])
+            if op == "rel" and rng.random() < 0.5:
+                b = s1_clean_join(a, raw_string())
+            lines.append("\t".join([op, hx(a)] + ([hx(b)] if op in ("join", "rel") else [])))
+            meta.append(dict(family=fam, op=op, a=a, b=b))
+        else:
+            lines.append("\t".join(["rebase", hx(root), hx(cwd), hx(arg)]))
+            meta.append(dict(family=fam, root=root, cwd=cwd, arg=arg, expect=expect))
+    inp = ("\n".join(lines) + "\n").encode()
+    pi = subprocess.run([h, "path"], input=inp, stdout=subprocess.PIPE, stderr=subprocess.PIPE, timeout=1200)
+    pm = subprocess.run([drv, "path"], input=inp, stdout=subprocess.PIPE, stderr=subprocess.PIPE, timeout=1200)
+    oi, om = pi.stdout.decode().split("\n")[:-1], pm.stdout.decode().split("\n")[:-1]
+    if pi.returncode != 0 or pm.returncode != 0 or len(oi) != len(lines) or len(om) != len(lines):
+        raise vlib.BuildBroken("path stream", (pi.stderr + pm.stderr).decode(errors="replace")[-1500:])
+    fams = {}
+    for ln, m, a, b in zip(lines, meta, oi, om):
+        fams[m["family"]] = fams.get(m["family"], 0) + 1
+        R.count("path:" + ln, m["family"] != "algebra" or True)
+        show = {k: (v.decode("utf-8", "backslashreplace") if isinstance(v, bytes) else
+                    (b"/".join(v).decode("utf-8", "backslashreplace") if isinstance(v, list) else v)) for k, v in m.items()}
+        if a == "harness-error":
+            continue
+        if a != b:
+            R.violation(dict(kind="model-implementation-disagreement", stream="S7-path", line=ln, implementation=a, model=b, **show), nofail=True)
+        elif m.get("expect") is not None:
+            want = hx(b"/".join(m["expect"]) if m["expect"] else b".")
+            if a != want:
+                R.violation(dict(kind="property-violated-on-implementation", stream="S7-path", line=ln, implementation=a, expected=want,
+                                 violations=["pathAbsThenRel does not return the stage path the argument denotes"], **show))
+    R.cov["path_stream"] = dict(lines=len(lines), families=fams)
+
+
+def s1_clean_join(a, b):
+    return os.path.normpath(os.path.join(a, b)) if (a or b) else b""
+
+
+def hx(b):
+    return b.hex()
+
+
 def main(tier, replay=None):
     R = vlib.Result(PROP, tier)
     R.cov["rule"] = ("S1 CLI histories: generated trees (name classes, sizes around 64 KiB, nesting) x artifact kinds x commit/checkout "
@@ -220,6 +329,8 @@ def main(tier, replay=None):
     R.cov["families"] = {f: sum(1 for c in cases if c.get("family") == f) for f in set(c.get("family") for c in cases)}
     for run in runs[:3]:
         R.sample(s1eval.describe(run["case"]))
+    if not replay:
+        path_stream(R, drv, rng, tier)
     R.absorb_audit(vlib.lean_audit(PROP))
     if tier == "thorough":
         ok, log = vlib.leanchecker(["DudModel.Props.C01"])
